@@ -523,7 +523,7 @@ def execute(scenario):
                     # rowio documents an AssertionError for misfits): they are written as empty names here
                     header_count = cid.data_format.header
                     writable = [[""] * len(cid.field_formats)] * min(header_count, len(data_rows)) + [
-                        row for row in data_rows[header_count:] if len(row) == len(cid.field_formats)]
+                        list(row) for row in data_rows[header_count:]]  # rows with too few or too many items included
                     status, writer = lib.call(validio.Writer, cid, "out.txt")
                     judge("writer-open", status, writer)
                     if status == "ok":
